@@ -938,7 +938,7 @@ def flip_cases(ctx, registries):
     """Per registry entry: one directed history (same call, precision alternating, then shape / layout flips) and
     random ones.  Same histories in the quick and in the thorough tier (more of them in the latter)."""
     rng = np.random.default_rng([ctx.seed, 6, 8])
-    n_random = ctx.scale(2, 8)
+    n_random = ctx.scale(2, 3)
     cases = []
     idx = 0
     for k, entries in enumerate(registries):
@@ -1795,7 +1795,7 @@ def run(ctx):
             continue
         if e.family == 'filter':
             # the padded FFT matrices of a FourierFilter make a 1.7 MB request: their own budget (entries x directions first)
-            left = pc_budget.setdefault('filter-term', ctx.scale(4, 48))
+            left = pc_budget.setdefault('filter-term', ctx.scale(4, 16))
             if left <= 0 or case['kind'] != 'scalar' or (ctx.quick() and case['wavelength'] != e.wavelengths[0]):
                 ctx.count('denote-filter-term-skipped-budget')
                 continue
